@@ -111,6 +111,7 @@ finding(["C16"], "L3", "tensor.Copy@copyDense(%dt, %ts) ⊨ %ts.DataOrder().HasS
 finding(["C16"], "L4", "tensor.ToMat64@mat.NewDense( ?$t.DataOrder().IsColMajor()", "ToMat64 hands column-major storage to the row-major mat.Dense", "without a test of $t.DataOrder().IsColMajor()", 18)
 
 FIXED = [
+ {"property":"C04","commit":"03c38a0","rule":"L1","key":"tensor.(*Dense).Transpose@%transposer.Transpose($r, ⊨ (!$r.old.IsZero() && !(!($r.viewOf == 0) && $r.o.IsNotContiguous()))","what":"fixed: property=C04 03c38a0 Dense.Transpose materialised the lazy transpose of a non-contiguous view in place, over the first Size() positions of the view's window: v := a(3,4)[:, 1:3]; v.T(); v.Transpose() overwrote 5 parent elements outside the view; it now refuses such a view (DESIGN finding 5)"},
  {"property":"C20","commit":"eb67722","rule":"B2","key":"tensor.(StdEng).transposeMask","what":"fixed: property=C20 eb67722 under -tags inplacetranspose transposeMask handled rank 2 only and left every other tensor's mask in place while the data moved: a masked (2,3,4) tensor after T(1,2,0); Transpose() had 10 mask bits on the wrong elements (the copying build is right) (DESIGN finding 29)"},
  {"property":"C15","commit":"eb67722","rule":"B2","key":"tensor.(StdEng).transposeMask","what":"fixed: property=C15 eb67722 same defect seen from C15: mask and data disagree after a materialised transpose of a masked tensor of rank >= 3 in the in-place build (DESIGN finding 29)"},
  {"property":"C08","commit":"e4b6ca1","rule":"L3","key":"tensor.(StdEng).OptimizedReduce@$r.E.ReduceDefault( ⊨ !%at.DataOrder().IsColMajor()","what":"fixed: property=C08 e4b6ca1 the middle-axis arm of Reduce/OptimizedReduce ran the row-major kernel on column-major strides: Sum(1) of a (2,3,4) AsFortran tensor panicked with index out of range where the first- and last-axis arms refuse with NYI: colmajor (DESIGN finding 58)"},
